@@ -11,6 +11,7 @@ import (
 	tmproto "github.com/cometbft/cometbft/proto/tendermint/types"
 	tmtypes "github.com/cometbft/cometbft/types"
 
+	clienttypes "github.com/bianjieai/tibc-go/modules/tibc/core/02-client/types"
 	host "github.com/bianjieai/tibc-go/modules/tibc/core/24-host"
 	tibctmtypes "github.com/bianjieai/tibc-go/modules/tibc/light-clients/07-tendermint/types"
 )
@@ -238,6 +239,61 @@ func c07Stories(e *c07Env, r *rand.Rand) {
 		sc.step("story-damaged/"+which+"-state-deleted/13-trusted-8", at(13), c07Build(w.honest(13, 8)))
 		sc.step("story-damaged/"+which+"-state-deleted/9-trusted-5", at(13), c07Build(w.honest(9, 5)))
 	}
+	// --- client upgraded to a new revision while states of the old revision are still stored and trusted:
+	//     header revision in {trusted, latest, a third one} x trusted state in {old, new revision} x adjacent / non-adjacent
+	for _, withMeta := range []bool{false, true} {
+		for _, tl := range [][2]uint64{{1, 3}, {2, 3}} {
+			w1 := c07NewWorld(r, "gaia-1", 3, 4, 3, 30, 0)
+			cfg := c07ClientCfg{tl[0], tl[1], 24 * h, 10 * time.Second}
+			w2 := c07NewWorldAt(r, "gaia-2", 3, 4, 3, 30, 0, w1.block(10).Time)
+			now := w2.block(12).Time.Add(time.Second) // after every block used below
+			tag := fmt.Sprintf("story-upgrade/meta=%v/", withMeta)
+			first := true
+			fresh := func() *c07Scen {
+				sc := e.newScen()
+				sc.create(w1.block(5).Time.Add(time.Second), w1.clientState(cfg, 5), w1.consState(5))
+				sc.noCase = !first // the common prefix is emitted as a Coq case only once
+				first = false
+				sc.step(tag+"before/1-8", w1.block(8).Time.Add(time.Second), c07Build(w1.honest(8, 5)))
+				sc.noCase = false
+				sc.upgrade(w2.block(5).Time.Add(time.Second), w2.clientState(cfg, 5), w2.consState(5), withMeta)
+				return sc
+			}
+			withChain := func(sp *c07Spec, id string) *c07Spec { sp.ChainID = id; return sp }
+			type tc struct {
+				name string
+				sp   *c07Spec
+			}
+			for _, c := range []tc{
+				// trusted state of the OLD revision (1-8)
+				{"old-trusted/header-rev1-adjacent", w1.honest(9, 8)},
+				{"old-trusted/header-rev1-nonadjacent", w1.honest(20, 8)},
+				{"old-trusted/header-rev2-adjacent", withChain(w1.honest(9, 8), "gaia-2")},
+				{"old-trusted/header-rev2-nonadjacent", withChain(w1.honest(20, 8), "gaia-2")},
+				{"old-trusted/header-rev3-adjacent", withChain(w1.honest(9, 8), "gaia-3")},
+				{"old-trusted/header-rev3-nonadjacent", withChain(w1.honest(20, 8), "gaia-3")},
+				{"old-trusted-5/header-rev1-below-other-state", w1.honest(7, 5)},
+				{"old-trusted-5/header-rev2", withChain(w1.honest(7, 5), "gaia-2")},
+				// trusted state of the NEW revision (2-5)
+				{"new-trusted/header-rev2-adjacent", w2.honest(6, 5)},
+				{"new-trusted/header-rev2-nonadjacent", w2.honest(11, 5)},
+				{"new-trusted/header-rev1-adjacent", withChain(w2.honest(6, 5), "gaia-1")},
+				{"new-trusted/header-rev1-nonadjacent", withChain(w2.honest(11, 5), "gaia-1")},
+				{"new-trusted/header-rev3-adjacent", withChain(w2.honest(6, 5), "gaia-3")},
+				{"new-trusted/header-rev3-nonadjacent", withChain(w2.honest(11, 5), "gaia-3")},
+			} {
+				fresh().step(tag+c.name, now, c07Build(c.sp))
+			}
+			// a longer history on the upgraded client, alternating revisions
+			sc := fresh()
+			sc.step(tag+"history/2-7", now, c07Build(w2.honest(7, 5)))
+			sc.step(tag+"history/1-12-old-revision", now, c07Build(w1.honest(12, 8)))
+			sc.step(tag+"history/2-9-trusted-1-12", now, c07Build(withChain(w1.honest(13, 12), "gaia-2")))
+			sc.step(tag+"history/1-13", now, c07Build(w1.honest(13, 12)))
+			sc.step(tag+"history/2-8-trusted-2-7", now, c07Build(w2.honest(8, 7)))
+			sc.step(tag+"history/1-9-trusted-2-7", now, c07Build(withChain(w2.honest(9, 7), "gaia-1")))
+		}
+	}
 	// --- no client under that name
 	{
 		w := c07NewWorld(r, "cpty-1", 2, 2, 2, 0, 0)
@@ -297,16 +353,37 @@ func c07Random(e *c07Env) {
 		now := w.block(g0).Time.Add(time.Second)
 		sc.create(now, w.clientState(cfg, g0), w.consState(g0))
 		steps := 4 + r.Intn(9)
+		worlds := map[uint64]*c07World{w.Rev: w} // one simulated chain per revision the client has tracked
+		upgradeAt := -1
+		if clienttypes.IsRevisionFormat(w.ChainID) && w.Rev < 1<<40 && r.Intn(3) == 0 {
+			upgradeAt = 1 + r.Intn(4)
+		}
 		for i := 0; i < steps; i++ {
+			if i == upgradeAt { // the counterparty restarts under the next revision; old states stay stored
+				id2, _ := clienttypes.SetRevisionNumber(w.ChainID, w.Rev+1)
+				g2 := 1 + r.Int63n(5)
+				w2 := c07NewWorldAt(r, id2, nv, maxV, maxP, 30, 0, now.Add(-time.Duration(g2)*10*time.Minute))
+				worlds[w2.Rev] = w2
+				if t := w2.block(g2).Time.Add(time.Second); t.After(now) {
+					now = t
+				}
+				sc.upgrade(now, w2.clientState(cfg, g2), w2.consState(g2), r.Intn(2) == 0)
+				e.rep.Count("random:upgrade-to-next-revision")
+			}
 			pre := c07Dump(sc.store(sc.ctx), e.cdc)
 			if pre.Client == nil || len(pre.Cons) == 0 {
 				break
 			}
-			// trusted height: mostly the latest stored one
-			g := int64(pre.Cons[len(pre.Cons)-1].H.RevisionHeight)
-			if r.Intn(4) == 0 {
-				g = int64(pre.Cons[r.Intn(len(pre.Cons))].H.RevisionHeight)
+			// trusted state: mostly the latest stored one; after an upgrade often one of the old revision
+			te := pre.Cons[len(pre.Cons)-1]
+			if r.Intn(4) == 0 || (len(worlds) > 1 && r.Intn(2) == 0) {
+				te = pre.Cons[r.Intn(len(pre.Cons))]
 			}
+			w := worlds[te.H.RevisionNumber]
+			if w == nil {
+				break
+			}
+			g := int64(te.H.RevisionHeight)
 			// target height
 			var hh int64
 			switch r.Intn(10) {
@@ -325,6 +402,15 @@ func c07Random(e *c07Env) {
 				hh = g + 1
 			}
 			st := &c07Step{w: w, sp: w.honest(hh, g), cfg: cfg, g: g}
+			if lr := pre.Client.LatestHeight.RevisionNumber; lr != w.Rev {
+				st.otherRev, st.hasOtherRev = lr, true
+			} else if len(worlds) > 1 {
+				for rv := range worlds {
+					if rv != w.Rev {
+						st.otherRev, st.hasOtherRev = rv, true
+					}
+				}
+			}
 			// block time: normally just after the header, never before the previous step
 			cand := w.block(hh).Time.Add(time.Duration(r.Int63n(int64(5 * time.Second))))
 			switch r.Intn(12) {
@@ -369,7 +455,15 @@ func c07Random(e *c07Env) {
 					fam = "random-threshold"
 				}
 			}
-			if r.Intn(4) == 0 { // malformed stream
+			if st.hasOtherRev && r.Intn(3) == 0 { // header of the client's other revision / of a third one
+				want := pick(r, []string{"chain-id-latest-revision", "chain-id-latest-revision", "chain-id-third-revision"})
+				for _, p := range perturbs {
+					if p.Name == want && p.F(st) {
+						fam = "random-cross-revision/" + p.Name
+						break
+					}
+				}
+			} else if r.Intn(4) == 0 { // malformed stream
 				p := perturbs[r.Intn(len(perturbs))]
 				if p.F(st) {
 					fam = "random-malformed/" + p.Name
